@@ -35,6 +35,7 @@ pub fn check(family: &str, rec: &J) -> Verdict {
         "visit" => lint::check_visit(rec),
         "exec" => exec::check(rec),
         "total" => lex::check_total(rec),
+        "flat" => lex::check_flat(rec),
         _ => Verdict {
             st: "toolerr",
             nontrivial: false,
